@@ -191,6 +191,13 @@ def install(I):
         days = calendar.timegm((yr + 1900 + mon // 12, mon % 12 + 1, 1, 0, 0, 0)) // 86400 + (d - 1)
         return (days * 86400 + hr * 3600 + mi * 60 + sec) & ((1 << 64) - 1)
     M['gmtime_r'] = gmtime_r_; M['timegm'] = timegm_
+    M['prctl'] = lambda I, *a: 0              # thread naming
+    # std::exception_ptr: an opaque token for the in-flight exception
+    def current_exception(I, ret): I.store(ret, _P, 0x7e57)
+    M['_ZSt17current_exceptionv'] = current_exception
+    M['_ZNSt15__exception_ptr13exception_ptr10_M_releaseEv'] = lambda I, this: None
+    M['_ZNSt15__exception_ptr13exception_ptr9_M_addrefEv'] = lambda I, this: None
+    M['_ZNSt15__exception_ptr13exception_ptrC1EPv'] = lambda I, this, p: I.store(this, _P, p)
     # osmium::not_found(id): the constructor only formats the id into the message
     I.overrides['@_ZN6osmium9not_foundC2Em'] = lambda I, *a: None
     # std::to_string(integer): only used to build exception messages -> empty string (formatting is never the subject)
